@@ -2,8 +2,8 @@ import BfeVerif.C19.Model
 /-! Lemmas for C19 (core Lean only). -/
 namespace BfeVerif.C19
 
-/-- a real entry that cannot be confused with the deletion marker -/
-def Good (a : Item) : Prop := 0 < a.1 ∧ a.1 ≤ a.2 ∧ a.2 ≠ v4zero
+/-- a real entry: two non-nil IPs (codes ≥ 1) with start ≤ end -/
+def Good (a : Item) : Prop := 0 < a.1 ∧ a.1 ≤ a.2
 
 def OKi (a : Item) : Prop := a = marker ∨ Good a
 
@@ -19,15 +19,13 @@ theorem marker_iff (a : Item) : a = marker ↔ a.1 = 0 ∧ a.2 = 0 := by
 theorem good_ne_marker {a : Item} (h : Good a) : a ≠ marker := by
   intro e; rw [marker_iff] at e; unfold Good at h; omega
 
-theorem v4zero_ne_zero : v4zero ≠ 0 := by decide
-
 theorem isMarkEnd_iff {a : Item} (h : OKi a) : isMarkEnd a.2 = true ↔ a = marker := by
   unfold isMarkEnd
-  simp only [Bool.or_eq_true, beq_iff_eq]
+  simp only [beq_iff_eq]
   rcases h with h | h
   · subst h; simp [marker]
   · constructor
-    · intro h'; unfold Good at h; rcases h' with h' | h' <;> omega
+    · intro h'; unfold Good at h; omega
     · intro e; exact absurd e (good_ne_marker h)
 
 theorem end0_iff {a : Item} (h : OKi a) : a.2 = 0 ↔ a = marker := by
@@ -56,23 +54,27 @@ theorem cov_markers {l : List Item} (h : ∀ a ∈ l, a = marker) {x : Nat} (hx 
 
 /-! ### wipe -/
 
-theorem wipe_spec (l : List Item) (h : ∀ a ∈ l, OKi a) :
-    (wipe l).1 = List.replicate l.length marker ∧ (wipe l).2 + l.count marker = l.length := by
+theorem wipe_spec (st : Nat) (l : List Item) (h : ∀ a ∈ l, OKi a) (hst : ∀ a ∈ l, a = marker ∨ st ≤ a.1) :
+    (wipe st l).1 = List.replicate l.length marker ∧ (wipe st l).2 + l.count marker = l.length := by
   induction l with
   | nil => simp [wipe]
   | cons k ks ih =>
     have hk := h k (by simp)
-    have ih := ih (fun a ha => h a (by simp [ha]))
+    have ih := ih (fun a ha => h a (by simp [ha])) (fun a ha => hst a (by simp [ha]))
     unfold wipe
     by_cases hm : isMarkEnd k.2 = true
     · have : k = marker := (isMarkEnd_iff hk).mp hm
-      simp only [hm, if_true]
+      simp only [hm, Bool.true_or, if_true]
       subst this
       simp only [List.length_cons, List.replicate_succ, List.count_cons_self]
       exact ⟨by rw [ih.1], by omega⟩
     · have hne : k ≠ marker := fun e => hm ((isMarkEnd_iff hk).mpr e)
-      simp only [hm]
-      simp only [List.length_cons, List.replicate_succ, Bool.false_eq_true, if_false]
+      have hge : ¬ k.1 < st := by
+        rcases hst k (by simp) with h' | h'
+        · exact absurd h' hne
+        · omega
+      simp only [hm, hge, decide_false, Bool.or_self, Bool.false_eq_true, if_false]
+      simp only [List.length_cons, List.replicate_succ]
       refine ⟨by rw [ih.1], ?_⟩
       rw [List.count_cons_of_ne hne]; omega
 
@@ -135,13 +137,11 @@ theorem scan_post : ∀ (todo : List Item) (cur : Item) (done : List Item) (m : 
       · intro a ha; exact htodo a (by simp [ha])
       · rw [← hassoc]; exact hs
     unfold scan
-    by_cases h1 : (x.2 == 0 || cur.2 == v4zero) = true
+    by_cases h1 : (x.2 == 0) = true
     · simp only [h1, if_true]
       apply keep
-      simp only [Bool.or_eq_true, beq_iff_eq] at h1
-      rcases h1 with h1 | h1
-      · exact Or.inl ((end0_iff hxok).mp h1)
-      · exact absurd h1 hcur.2.2
+      simp only [beq_iff_eq] at h1
+      exact Or.inl ((end0_iff hxok).mp h1)
     · simp only [h1, Bool.false_eq_true, if_false]
       by_cases h2 : x.2 ≥ cur.1
       · simp only [h2, if_true]
@@ -153,7 +153,10 @@ theorem scan_post : ∀ (todo : List Item) (cur : Item) (done : List Item) (m : 
         have hxg' := hxg
         unfold Good at hxg'
         have hokd : ∀ a ∈ done, OKi a := fun a ha => hok a (by simp [ha])
-        obtain ⟨hw1, hw2⟩ := wipe_spec done hokd
+        have hs0 := hs
+        unfold SortedM at hs0
+        rw [List.pairwise_append] at hs0
+        obtain ⟨hw1, hw2⟩ := wipe_spec x.1 done hokd (fun a ha => hs0.2.2 a ha x (by simp))
         have hxle : x.1 ≤ cur.1 := by
           rcases htodo x (by simp) with h | h
           · exact absurd h hxne
@@ -171,10 +174,7 @@ theorem scan_post : ∀ (todo : List Item) (cur : Item) (done : List Item) (m : 
           rw [hc2]; split <;> omega
         have hg' : Good cur' := by
           unfold Good; rw [hc1]
-          refine ⟨hxg'.1, by omega, ?_⟩
-          rcases hc2a.2.2 with h | h <;> rw [h]
-          · exact hcur.2.2
-          · exact hxg'.2.2
+          exact ⟨hxg'.1, by omega⟩
         rw [hw1]
         have hmk : ∀ a ∈ List.replicate done.length marker ++ [marker], a = marker := by
           intro a ha
@@ -182,7 +182,7 @@ theorem scan_post : ∀ (todo : List Item) (cur : Item) (done : List Item) (m : 
           rcases ha with ha | ha
           · exact List.eq_of_mem_replicate ha
           · exact ha
-        have post := ih cur' (List.replicate done.length marker ++ [marker]) (m + 1 + (wipe done).2) hg'
+        have post := ih cur' (List.replicate done.length marker ++ [marker]) (m + 1 + (wipe x.1 done).2) hg'
           (by
             intro a ha
             rw [List.mem_append] at ha
@@ -619,8 +619,8 @@ theorem set_mid (pre : List Item) (x y : Item) (rest : List Item) :
 
 theorem wipeA_spec : ∀ (d2 : List Item) (fuel : Nat) (pre d1 rest : List Item) (cur : Item) (j k : Nat),
     k = pre.length + 1 + d1.length → j = k + d2.length → d2.length ≤ fuel →
-    wipeA fuel (pre ++ cur :: (d1 ++ d2) ++ rest) j k =
-      (pre ++ cur :: (d1 ++ (wipe d2).1) ++ rest, (wipe d2).2) := by
+    wipeA fuel (pre ++ cur :: (d1 ++ d2) ++ rest) pre.length j k =
+      (pre ++ cur :: (d1 ++ (wipe cur.1 d2).1) ++ rest, (wipe cur.1 d2).2) := by
   intro d2
   induction d2 with
   | nil =>
@@ -639,9 +639,12 @@ theorem wipeA_spec : ∀ (d2 : List Item) (fuel : Nat) (pre d1 rest : List Item)
       have hklen : k = (pre ++ cur :: d1).length := by simp; omega
       have hg : getI (pre ++ cur :: (d1 ++ x :: t) ++ rest) k = x := by
         rw [hshape, hklen]; exact getI_mid _ _ _
+      have hgi : getI (pre ++ cur :: (d1 ++ x :: t) ++ rest) pre.length = cur := by
+        have : pre ++ cur :: (d1 ++ x :: t) ++ rest = pre ++ cur :: ((d1 ++ x :: t) ++ rest) := by simp
+        rw [this]; exact getI_mid _ _ _
       unfold wipeA wipe
-      simp only [hkj, if_true, hg]
-      by_cases hm : isMarkEnd x.2 = true
+      simp only [hkj, if_true, hg, hgi]
+      by_cases hm : (isMarkEnd x.2 || decide (x.1 < cur.1)) = true
       · simp only [hm, if_true]
         have := ih fuel pre (d1 ++ [x]) rest cur j (k + 1) (by simp; omega) (by omega) (by omega)
         simpa using this
@@ -650,8 +653,8 @@ theorem wipeA_spec : ∀ (d2 : List Item) (fuel : Nat) (pre d1 rest : List Item)
           rw [hshape, hklen, set_mid]; simp
         rw [hs]
         have := ih fuel pre (d1 ++ [marker]) rest cur j (k + 1) (by simp; omega) (by omega) (by omega)
-        have this' : wipeA fuel (pre ++ cur :: (d1 ++ marker :: t) ++ rest) j (k + 1) =
-            (pre ++ cur :: (d1 ++ marker :: (wipe t).1) ++ rest, (wipe t).2) := by simpa using this
+        have this' : wipeA fuel (pre ++ cur :: (d1 ++ marker :: t) ++ rest) pre.length j (k + 1) =
+            (pre ++ cur :: (d1 ++ marker :: (wipe cur.1 t).1) ++ rest, (wipe cur.1 t).2) := by simpa using this
         rw [this']
 
 theorem getI_at (pre : List Item) (x : Item) (rest : List Item) (n : Nat) (h : n = pre.length) :
@@ -663,7 +666,7 @@ theorem set_at (pre : List Item) (x y : Item) (rest : List Item) (n : Nat) (h : 
 theorem checkMergeA_spec (pre done todo : List Item) (cur x : Item) :
     checkMergeA (pre ++ cur :: done ++ x :: todo) pre.length (pre.length + 1 + done.length) =
       if x.2 ≥ cur.1 then
-        (pre ++ (x.1, if x.2 ≥ cur.2 then x.2 else cur.2) :: ((wipe done).1 ++ [marker]) ++ todo, (wipe done).2 + 1)
+        (pre ++ (x.1, if x.2 ≥ cur.2 then x.2 else cur.2) :: ((wipe x.1 done).1 ++ [marker]) ++ todo, (wipe x.1 done).2 + 1)
       else (pre ++ cur :: done ++ x :: todo, 0) := by
   have hj : ∀ (c : Item), pre.length + 1 + done.length = (pre ++ c :: done).length := by intro c; simp; omega
   have sh : ∀ (c y : Item), pre ++ c :: done ++ y :: todo = (pre ++ c :: done) ++ y :: todo := by intro c y; simp
@@ -687,7 +690,9 @@ theorem checkMergeA_spec (pre done todo : List Item) (cur x : Item) :
         pre ++ (x.1, if x.2 ≥ cur.2 then x.2 else cur.2) :: done ++ x :: todo := by
       split <;> rfl
     rw [ha2]
-    generalize ((x.1, if x.2 ≥ cur.2 then x.2 else cur.2) : Item) = c'
+    generalize hc' : ((x.1, if x.2 ≥ cur.2 then x.2 else cur.2) : Item) = c'
+    have hc1 : x.1 = c'.1 := by rw [← hc']
+    rw [hc1]
     have ha3 : (pre ++ c' :: done ++ x :: todo).set (pre.length + 1 + done.length) marker =
         pre ++ c' :: ([] ++ done) ++ (marker :: todo) := by
       rw [sh, hj c', set_mid]; simp
@@ -697,7 +702,7 @@ theorem checkMergeA_spec (pre done todo : List Item) (cur x : Item) :
     simp
   · simp only [h, if_false]
 
-theorem wipe_length (l : List Item) : (wipe l).1.length = l.length := by
+theorem wipe_length (st : Nat) (l : List Item) : (wipe st l).1.length = l.length := by
   induction l with
   | nil => rfl
   | cons k ks ih => unfold wipe; split <;> simp [ih]
@@ -764,8 +769,8 @@ theorem innerA_spec : ∀ (todo : List Item) (fuel : Nat) (pre : List Item) (cur
         simp only [List.length_append, List.length_singleton, hd] at this
         exact this
       unfold innerA scan
-      simp only [hlt, if_true, gi, gj]
-      by_cases h1 : (x.2 == 0 || cur.2 == v4zero) = true
+      simp only [hlt, if_true, gj]
+      by_cases h1 : (x.2 == 0) = true
       · simp only [h1, if_true]
         have := hnext cur x done rfl
         have e : pre ++ cur :: (done ++ [x]) ++ t = pre ++ cur :: done ++ x :: t := by simp
@@ -774,8 +779,8 @@ theorem innerA_spec : ∀ (todo : List Item) (fuel : Nat) (pre : List Item) (cur
         rw [checkMergeA_spec]
         by_cases h2 : x.2 ≥ cur.1
         · simp only [h2, if_true]
-          have := hnext (x.1, if x.2 ≥ cur.2 then x.2 else cur.2) marker (wipe done).1 (wipe_length done)
-          rw [this, scan_acc _ _ _ (0 + 1 + (wipe done).2)]
+          have := hnext (x.1, if x.2 ≥ cur.2 then x.2 else cur.2) marker (wipe x.1 done).1 (wipe_length x.1 done)
+          rw [this, scan_acc _ _ _ (0 + 1 + (wipe x.1 done).2)]
           simp only [Prod.mk.injEq, true_and]; omega
         · simp only [h2, if_false]
           have := hnext cur x done rfl
